@@ -43,4 +43,139 @@ example : escape [0x61, 0x2E, 0x62, 0x5C] = [0x61, 0x5C, 0x2E, 0x62, 0x5C, 0x5C]
 /-- empty labels are dropped: `.a..b.` reads as `a`, `b` -/
 example : parseEscaped [0x2E, 0x61, 0x2E, 0x2E, 0x62, 0x2E] = [[0x61], [0x62]] := by decide
 
+/-! ### no panic, packet size, header -/
+
+/-- `a.b.` -/
+def nAB : BList := [0x61, 0x2E, 0x62, 0x2E]
+/-- `c\.d.a.b.`: the first label is `c.d` -/
+def nCAB : BList := [0x63, 0x5C, 0x2E, 0x64, 0x2E, 0x61, 0x2E, 0x62, 0x2E]
+
+/-- Example message used for non-vacuity: a query with one question `a.b.`, one PTR known
+    answer `a.b.` -> `c\.d.a.b.` (owner and target are written as compression pointers) and
+    one additional A record. -/
+def ex1 : OutMsg :=
+  (((OutMsg.new 0 7).addQuestion nAB 12).addAnswerAtTime (mkRec nAB 12 1 120 1000 (.ptr nCAB)) 0).addAdditional
+    (mkRec nCAB 1 0x8001 4500 1000 (.a [10, 0, 0, 1]))
+
+/-- The encoder never returns an error and, inside the domain `MsgOK` (every label of
+    every name at most 63 bytes; answers not past their expiry, in particular `now = 0`),
+    it never panics.  Outside the domain it does: `assert!(s.len() < 64)` (D10). -/
+theorem encode_no_panic (o : OutMsg) (h : MsgOK o) : encode o ≠ .panic ∧ encode o ≠ .err := by
+  have h1 := toPackets_ne_panic o h
+  have h2 := toPackets_ne_err o
+  unfold encode
+  cases hp : toPackets o with
+  | ok ps => simp
+  | err => exact absurd hp h2
+  | panic => exact absurd hp h1
+
+/-- `add_answer_at_time` only lets through answers for which the TTL subtraction of
+    `get_remaining_ttl` cannot underflow. -/
+theorem addAnswerAtTime_ok (o : OutMsg) (r : RecIn) (now : Nat) (hr : RecOK r)
+    (h : ∀ a ∈ o.answers, AnsOK a) : ∀ a ∈ (o.addAnswerAtTime r now).answers, AnsOK a := by
+  unfold OutMsg.addAnswerAtTime
+  split
+  · rename_i hc
+    intro a ha
+    simp only [List.mem_append, List.mem_singleton] at ha
+    rcases ha with ha | rfl
+    · exact h a ha
+    · refine ⟨hr, ?_⟩
+      rcases hc with h0 | h0
+      · exact Or.inl h0
+      · right
+        simp [isExpired] at h0
+        exact Nat.le_of_lt h0
+  · exact h
+
+example : MsgOK ex1 := by decide
+example : encode ex1 = .ok [#[0, 0, 0, 0, 0, 1, 0, 1, 0, 0, 0, 1, 1, 97, 1, 98, 0, 0, 12, 0, 1, 192, 12, 0, 12, 0, 1,
+    0, 0, 0, 120, 0, 6, 3, 99, 46, 100, 192, 12, 192, 33, 0, 1, 128, 1, 0, 0, 17, 148, 0, 4, 10, 0, 0, 1]] := by decide
+/-- outside the domain: a 64-byte label panics -/
+example : encode ((OutMsg.new 0 0).addQuestion (List.replicate 64 0x61) 12) = .panic := by decide
+
+/-- Every packet is at most 8972 bytes, PROVIDED the question section alone does not
+    already exceed it.  The hypothesis `questionsSize o ≤ 8972` is exactly the known
+    defect D17: `to_packets` never size-checks questions, so without it the bound is false
+    (600 questions give one packet of 13830 bytes).  Records are covered by the roll-back
+    of `write_record`. -/
+theorem packet_size (o : OutMsg) (ps : List Packet) (h : toPackets o = .ok ps)
+    (hq : questionsSize o ≤ MAX_MSG_ABSOLUTE) : ∀ p ∈ ps, p.data.size ≤ MAX_MSG_ABSOLUTE := by
+  obtain ⟨⟨init, last, rfl, hi, hl⟩, _⟩ := toPackets_ok o ps h
+  rw [Nat.max_eq_left hq] at hi hl
+  intro p hp
+  simp only [List.mem_append, List.mem_singleton] at hp
+  rcases hp with hp | rfl
+  · exact (hi p hp).2.2.1
+  · exact hl.2.2.1
+
+/-- A message WITHOUT questions: every packet is at most 8972 bytes, unconditionally. -/
+theorem packet_size_no_questions (o : OutMsg) (ps : List Packet) (h : toPackets o = .ok ps)
+    (hq : o.questions = []) : ∀ p ∈ ps, p.data.size ≤ MAX_MSG_ABSOLUTE := by
+  apply packet_size o ps h
+  simp [questionsSize, hq, writeQuestions, MAX_MSG_ABSOLUTE]
+
+/-- the same for the bytes returned by `to_data_on_wire` -/
+theorem packet_size_on_wire (o : OutMsg) (ds : List Data) (h : encode o = .ok ds)
+    (hq : questionsSize o ≤ MAX_MSG_ABSOLUTE) : ∀ d ∈ ds, d.size ≤ MAX_MSG_ABSOLUTE := by
+  unfold encode at h
+  cases hp : toPackets o with
+  | ok ps =>
+    simp only [hp, Res.ok.injEq] at h
+    subst h
+    intro d hd
+    obtain ⟨p, hp', rfl⟩ := List.mem_map.mp hd
+    exact packet_size o ps hp hq p hp'
+  | err => simp [hp] at h
+  | panic => simp [hp] at h
+
+example : questionsSize ex1 ≤ MAX_MSG_ABSOLUTE := by decide
+
+/-- The four counts in the header of every packet equal the number of questions and
+    records that were written into that packet and kept (`ghost`: the lists the model
+    carries next to the Rust counters; a rolled-back record is in neither).  Counts are
+    16-bit fields, hence the `% 65536` (a packet of at most 8972 bytes holds fewer than
+    816 records; only the unchecked question count of D17 can wrap). -/
+theorem header_counts (o : OutMsg) (ps : List Packet) (h : toPackets o = .ok ps) :
+    ∀ p ∈ ps, CountsOK p := by
+  obtain ⟨⟨init, last, rfl, hi, hl⟩, _⟩ := toPackets_ok o ps h
+  intro p hp
+  simp only [List.mem_append, List.mem_singleton] at hp
+  rcases hp with hp | rfl
+  · exact (hi p hp).1
+  · exact hl.1
+
+/-- Every packet but the last carries the message flags with TC set, the last one the
+    message flags themselves; every packet carries the same id (0, as `multicast` is
+    always set) and has a complete 12-byte header. -/
+theorem tc_flags (o : OutMsg) (ps : List Packet) (h : toPackets o = .ok ps) :
+    ∃ init last, ps = init ++ [last] ∧
+      (∀ p ∈ init, Ref.u16 p.data 2 = some ((o.flags ||| FLAGS_TC) % 65536)) ∧
+      Ref.u16 last.data 2 = some (o.flags % 65536) ∧
+      (∀ p ∈ ps, Ref.u16 p.data 0 = some (wireId o % 65536) ∧ 12 ≤ p.data.size) := by
+  obtain ⟨⟨init, last, rfl, hi, hl⟩, _⟩ := toPackets_ok o ps h
+  refine ⟨init, last, rfl, fun p hp => by simpa using (hi p hp).2.2.2.2, by simpa using hl.2.2.2.2, ?_⟩
+  intro p hp
+  simp only [List.mem_append, List.mem_singleton] at hp
+  rcases hp with hp | rfl
+  · exact ⟨(hi p hp).2.2.2.1, (hi p hp).2.1⟩
+  · exact ⟨hl.2.2.2.1, hl.2.1⟩
+
+/-- What the packets carry, taken together and in packet order: exactly the questions
+    that were added, and for each record section an in-order subsequence of what was added
+    (a record that does not fit is left out whole or carried into a following packet;
+    nothing is invented, nothing is reordered, nothing is duplicated). -/
+theorem carried_in_order (o : OutMsg) (ps : List Packet) (h : toPackets o = .ok ps) :
+    ps.flatMap (·.ghost.qs) = o.questions ∧
+    (ps.flatMap (·.ghost.an)).Sublist o.answers ∧
+    (ps.flatMap (·.ghost.au)).Sublist o.authorities ∧
+    (ps.flatMap (·.ghost.ad)).Sublist o.additionals := (toPackets_ok o ps h).2
+
+/-- non-vacuity of the three theorems above: `ex1` yields one packet with counts 1/1/0/1 -/
+example : (match toPackets ex1 with
+    | .ok ps => ps.map fun p => [p.ghost.qs.length, p.ghost.an.length, p.ghost.au.length, p.ghost.ad.length,
+                                 (Ref.u16 p.data 4).getD 99, (Ref.u16 p.data 6).getD 99,
+                                 (Ref.u16 p.data 8).getD 99, (Ref.u16 p.data 10).getD 99]
+    | _ => []) = [[1, 1, 0, 1, 1, 1, 0, 1]] := by decide
+
 end Mdns.Props.C02
